@@ -2335,6 +2335,17 @@ theorem play_PoolLive_repaired (e : Env) (s : St) (lh : Int) (b : Block) (hinv :
   · exact play_PoolLive e s lh b hinv hnd hid hnew (play_parents_in_block e s lh b hok) hdeps
   · rw [XV.C05.play_fail_noop e s lh b hok]; exact hinv
 
+/-- `play` keeps the reachable-state invariant `Ledger` with no hypothesis on the parents of the block's transactions -/
+theorem play_Ledger_repaired (e : Env) (s : St) (lh : Int) (b : Block) (C : List Nat) (h : Ledger e s C)
+    (hnd : b.txs.Nodup) (hid : ∀ i ∈ b.txs, (e.tx i).id = i) (hnewC : ∀ i ∈ b.txs, i ∉ C)
+    (haward : ∀ i ∈ b.txs, i ∉ s.pool → (e.tx i).coinbase = true → (e.tx i).ins = [] ∧ feeOf (e.tx i).outs = 0)
+    (hord : b.txs.Pairwise (fun a b => ∀ r ∈ (e.tx a).ins, r.tx ≠ b))
+    (hdeps : ∀ c ∈ b.txs, c ∈ s.pool → ∀ p ∈ s.pool, dependsOn e s.pool c p = true → p ∈ b.txs) :
+    Ledger e (play e s lh b).1 (if (play e s lh b).2 = .ok then C ++ b.txs else C) := by
+  by_cases hok : (play e s lh b).2 = .ok
+  · exact play_Ledger e s lh b C h hnd hid hnewC haward (play_parents_in_block e s lh b hok) hord hdeps
+  · rw [if_neg hok, XV.C05.play_fail_noop e s lh b hok]; exact h
+
 /-- the witness that refuted conservation for the code as found — pool [1, 2] with 2 spending an output of 1, block
 [9 (award), 2] confirming the child alone — is now refused, and nothing changes -/
 theorem play_refuses_child_without_parent :
